@@ -117,9 +117,17 @@ func VerifC19Inmem() {
 	vf.Reach("end")
 }
 
-func init() { VfHarnesses["VerifC19InmemStep"] = VerifC19InmemStep }
+func init() {
+	VfHarnesses["VerifC19InmemStep"] = VerifC19InmemStep
+	VfHarnesses["VerifC19InmemStep3"] = VerifC19InmemStep3
+}
 
 // Inductive form: arbitrary pre-state of two stored entries, then ONE arbitrary operation, compared with the reference map.
+var vfPre = 2
+
+// VerifC19InmemStep3 is the same step from a three-entry pre-state (thorough tier).
+func VerifC19InmemStep3() { vfPre = 3; VerifC19InmemStep() }
+
 func VerifC19InmemStep() {
 	ctx := context.Background()
 	st, err := New(ctx)
@@ -127,5 +135,5 @@ func VerifC19InmemStep() {
 	if err != nil {
 		return
 	}
-	vfs.MapStep(ctx, st, false)
+	vfs.MapStep(ctx, st, false, vfPre)
 }
